@@ -13,6 +13,8 @@ TRUSTED = ["C08: ISIMIP step 1/8 (rsds annual cycle of upper bounds) is global b
            "C08: hand model Model/Driver.v of the scatter loop, tied by correspondence K3"]
 
 def correspondence(res, tier, seed):
+    from . import c07
+    c07.k19(res, tier, seed, tag="k19c08")      # the calendar the neighbourhoods are counted in
     drivers.k3(res, tier, seed, tag="k3c08", n_quick=30, n_thorough=300)
     res.rule = ("K3: probe window methods through the real loops of RunningWindowDebiaser, DeltaChange, ISIMIP (window mode) and CDFt's year loop, "
                 "series of 1..1200 days with arbitrary start dates, (L,S) in {1..31} incl. even values; search: real debiasers, leap and non-leap spans; "
@@ -23,15 +25,22 @@ def circ(a, b):
 
 REAL = ["LinearScaling", "DeltaChange", "QuantileMapping", "ScaledDistributionMapping", "CDFt", "ECDFM", "QuantileDeltaMapping", "ISIMIP"]
 
-def build(name, L, S):
+def own_day_of_year(t):
+    """day of the year from the calendar itself (not from the library's helper, which is part of what is checked)"""
+    t = np.asarray(t)
+    if np.issubdtype(t.dtype, np.datetime64):
+        t = t.astype("datetime64[D]").astype(object)
+    return np.array([x.timetuple().tm_yday for x in t])
+
+def build(name, L, S, var="tas"):
     import ibicus.debias as D, scipy.stats
     kw = dict(running_window_mode=True, running_window_length=L, running_window_step_length=S)
-    if name == "ECDFM": kw["distribution"] = scipy.stats.norm
+    if name == "ECDFM" and var == "tas": kw["distribution"] = scipy.stats.norm
     if name == "QuantileDeltaMapping": kw.update(running_window_over_years_of_cm_future_length=3, running_window_over_years_of_cm_future_step_length=1, cdf_threshold=1e-3)
     if name == "CDFt": kw.update(running_window_over_years_of_cm_future_length=3, running_window_over_years_of_cm_future_step_length=1)
     with warnings.catch_warnings():
         warnings.simplefilter("ignore")
-        return getattr(D, name).from_variable("tas", **kw)
+        return getattr(D, name).from_variable(var, **kw)
 
 def search(res, tier, seed, deep=False):
     logging.getLogger("ibicus").setLevel(logging.CRITICAL)
@@ -44,10 +53,16 @@ def search(res, tier, seed, deep=False):
         res.witness(dict(component="apply_location (running window)", statement=stmt, input=inp, observed=obs, expected="C08", **{"class": cls_}))
     rounds = 1 if tier == "quick" else 6
     for rnd in range(rounds):
-        for name in REAL:
+        # precipitation configurations whose fits are iterative (censored gamma, hurdle): each window's fit is its own
+        extra = [("QuantileDeltaMapping", "pr"), ("QuantileMapping", "pr")]
+        # windows nearly as long as the year: only the days at the far side of the year are outside the neighbourhood
+        long_w = [(n_, "tas", L_) for n_ in ("DeltaChange", "LinearScaling") for L_ in (365, 363)]
+        if tier == "quick": extra = [extra[0]]; long_w = [long_w[0], long_w[1 + (seed + rnd) % 3]]
+        for name, var, Lfix in [(n_, "tas", None) for n_ in REAL] + [(n_, v_, None) for n_, v_ in extra] + long_w:
             L = r.choice([5, 9, 15, 31]); S = r.choice([s for s in (1, 3, 5, 9, 15) if s <= L])
+            if Lfix: L, S = Lfix, 1
             if name == "ISIMIP" and S < 5: S = 5 if L >= 5 else L
-            d = build(name, L, S)
+            d = build(name, L, S, var)
             Lo, So = d.running_window_length, d.running_window_step_length
             Lo += (Lo % 2 == 0); So += (So % 2 == 0)
             nO, nH, nF = r.randint(740, 800), r.randint(740, 800), r.randint(500, 780)
@@ -56,15 +71,20 @@ def search(res, tier, seed, deep=False):
                 # several years with a clear trend, so that the detrending step (trend of the annual means, applied
                 # when significant) is active: it must use the window's values only
                 nF = r.randint(1830, 2200); trend = r.choice([0.6, 1.0]) / 365.25
-            starts = [datetime.date(r.choice([1979, 1980]), r.randint(1, 12), r.randint(1, 28)) for _ in range(2)] + [datetime.date(r.choice([2039, 2040]), r.randint(1, 12), r.randint(1, 28))]
+            # (century years: 1900 and 2100 are not leap years)
+            starts = [datetime.date(r.choice([1979, 1980, 1899, 1900]), r.randint(1, 12), r.randint(1, 28)) for _ in range(2)] + [datetime.date(r.choice([2039, 2040, 2099, 2100]), r.randint(1, 12), r.randint(1, 28))]
             if r.random() < 0.35:
                 # look-alike reference periods: equal length, same first calendar day, different years (one starts in a leap year)
                 nH = nO; starts[1] = datetime.date(starts[0].year + r.choice([1, 2]), starts[0].month, starts[0].day)
             tO, tH, tF = [create_array_of_consecutive_dates(n, np.datetime64(s)) for n, s in zip((nO, nH, nF), starts)]
+            rep = r.choice(["object", "object", "datetime64[D]", "datetime64[s]", "datetime64[ns]"])      # time axes as numpy datetime64, too
+            if rep != "object": tO, tH, tF = [np.array(t, dtype="datetime64[D]").astype(rep) for t in (tO, tH, tF)]
             rs = np.random.RandomState(r.randint(0, 10 ** 6))
             mk = lambda n, s: 280 + s + 8 * np.sin(np.arange(n) * 2 * np.pi / 365.25) + rs.normal(0, 2, n)
+            if var == "pr":
+                mk = lambda n, s: np.where(rs.rand(n) < 0.3, 0.0, rs.gamma(0.8, 6e-5 * (1 + 0.2 * s), n) + 2e-6)
             obs, hist, fut = mk(nO, 0), mk(nH, 2), mk(nF, 3) + trend * np.arange(nF)
-            dO, dH, dF = day_of_year(tO), day_of_year(tH), day_of_year(tF)
+            dO, dH, dF = own_day_of_year(tO), own_day_of_year(tH), own_day_of_year(tF)
             tk = dict(time_obs=tO, time_cm_hist=tH, time_cm_future=tF)
             dA = dO if name == "DeltaChange" else dF
             target = int(r.choice(list(dA)))
@@ -76,11 +96,12 @@ def search(res, tier, seed, deep=False):
                 o2, h2, f2 = obs.copy(), hist.copy(), fut.copy()
                 for arr, days in ((o2, dO), (h2, dH), (f2, dF)):
                     m = far(days)
-                    arr[m] = arr[m] * rs.choice([1.0, -3.0, 50.0], m.sum()) + rs.normal(0, 100, m.sum())
+                    if var == "pr": arr[m] = arr[m] * rs.choice([0.0, 3.0, 50.0], m.sum()) + rs.choice([0.0, 1e-4], m.sum())
+                    else: arr[m] = arr[m] * rs.choice([1.0, -3.0, 50.0], m.sum()) + rs.normal(0, 100, m.sum())
                 np.random.seed(3); pert = d.apply_location(o2, h2, f2, **tk)
             idx = np.where(np.asarray(dA) == target)[0]
-            inp = dict(debiaser=name, L=L, S=S, target_day=target, starts=[str(s) for s in starts], n=[nO, nH, nF], seed=seed)
-            res.case(("locality", name, Lo == So))
+            inp = dict(debiaser=name, variable=var, L=L, S=S, target_day=target, starts=[str(s) for s in starts], n=[nO, nH, nF], time_dtype=rep, seed=seed)
+            res.case(("locality", name, var, Lo == So, rep, L >= 363))
             if not np.array_equal(base[idx], pert[idx], equal_nan=True):
                 report("nonlocal:" + name, inp, float(np.nanmax(np.abs(base[idx] - pert[idx]))),
                        "changing inputs outside the L//2 + S//2 neighbourhood of a day changed the debiased value on that day")
